@@ -285,7 +285,8 @@ def check_inside_one(get, entered, rec, repl, target, viol, via):
         v = yield async_call.asynq(f, *a, **k)
         return v
 
-    given = ((3,), {"y": 4})
+    # (keyword names a wrapper might use for its own parameters are legal argument names too)
+    given = ((3,), {"y": 4, "fn": 5, "mock_fn": 6, "args": 7})
     results = []
     recorded = []
 
@@ -302,7 +303,7 @@ def check_inside_one(get, entered, rec, repl, target, viol, via):
         # convention 3 inside convention 4: the task that yields .asynq() is itself driven by an event loop
         ("yield .asynq() from a task run by asyncio", lambda: asyncio.run(yielder.asyncio(get(), given[0], given[1]))),
         # ... and the same through async_call, which awaits the target's .asyncio() inside asyncio mode
-        ("yield async_call.asynq() from a task run by asyncio", lambda: asyncio.run(ac_yielder.asyncio(get(), given[0], given[1]))),
+        ("yield async_call.asynq() from a task run by asyncio", lambda: asyncio.run(ac_yielder.asyncio(get(), given[0], {k_: v_ for k_, v_ in given[1].items() if k_ != "fn"}))),
     ]
     if repl == "asynq_fn":
         # an asynq function given as replacement is not one of the statement's replacement kinds; it is held to the
@@ -320,7 +321,10 @@ def check_inside_one(get, entered, rec, repl, target, viol, via):
             viol.append(("convention-did-not-reach-replacement-once", {"convention": name, "calls": len(new_calls), "outcome": repr(out)[:120]}))
             return len(convs)
         args, kw = new_calls[0]
-        if args[-1:] != (3,) or dict(kw) != {"y": 4}:
+        exp_kw = dict(given[1])
+        if "async_call" in name:
+            exp_kw.pop("fn")  # async_call(fn, *args, **kwargs) has a parameter of that name itself
+        if args[-1:] != (3,) or dict(kw) != exp_kw:
             viol.append(("replacement-got-wrong-arguments", {"convention": name, "recorded": repr(new_calls[0])[:120]}))
             return len(convs)
         want = None
@@ -331,9 +335,10 @@ def check_inside_one(get, entered, rec, repl, target, viol, via):
         if want is not None and args != want:
             viol.append(("replacement-got-wrong-arguments", {"convention": name, "recorded": repr(new_calls[0])[:120], "expected_positional": repr(want)[:80]}))
             return len(convs)
+    nofn = lambda call: (call[0], tuple(kv for kv in call[1] if kv[0] != "fn"))
     first = recorded[0][1][0]
     for name, calls in recorded[1:]:
-        if calls[0] != first:
+        if nofn(calls[0]) != nofn(first):
             viol.append(("conventions-reach-replacement-with-different-arguments", {"sync call": repr(first)[:120], name: repr(calls[0])[:120]}))
             break
     r0 = results[0][1]
